@@ -81,7 +81,8 @@ func Regions(v reflect.Value) []Region {
 				return
 			}
 			for i := 0; i < v.NumField(); i++ {
-				if v.Type().Field(i).PkgPath != "" {
+				if f := v.Type().Field(i); f.PkgPath != "" && !(f.Anonymous && f.Type.Kind() == reflect.Struct) {
+					// (an embedded struct of an unexported type is descended into: its exported fields are promoted)
 					continue
 				}
 				walk(v.Field(i), path+"."+v.Type().Field(i).Name, depth+1)
@@ -216,7 +217,8 @@ func Scribble(v reflect.Value) int {
 				return
 			}
 			for i := 0; i < v.NumField(); i++ {
-				if v.Type().Field(i).PkgPath != "" {
+				if f := v.Type().Field(i); f.PkgPath != "" && !(f.Anonymous && f.Type.Kind() == reflect.Struct) {
+					// (an embedded struct of an unexported type is descended into: its exported fields are promoted)
 					continue
 				}
 				f := v.Field(i)
@@ -278,7 +280,8 @@ func ReadAll(v reflect.Value) uint64 {
 				return
 			}
 			for i := 0; i < v.NumField(); i++ {
-				if v.Type().Field(i).PkgPath != "" {
+				if f := v.Type().Field(i); f.PkgPath != "" && !(f.Anonymous && f.Type.Kind() == reflect.Struct) {
+					// (an embedded struct of an unexported type is descended into: its exported fields are promoted)
 					continue
 				}
 				walk(v.Field(i), depth+1)
